@@ -139,6 +139,16 @@ Definition truthies : list val :=
 Definition non_empties : list val :=
   [VColl KList [vint 1]; VColl KSet [vint 1; vint 2; vint 3]; VColl KTuple [vint 1]; VColl KStr [VOther KStr 0 true]].
 
+(* more_itertools.powerset_of_sets: by size, each size in the order of itertools.combinations over the set's elements *)
+Fixpoint combs (r : nat) (l : list Q) : list (list Q) :=
+  match r, l with
+  | O, _ => [[]]
+  | S _, [] => []
+  | S r', x :: t => (map (cons x) (combs r' t) ++ combs r t)%list
+  end.
+Definition powerset (l : list Q) : list (list Q) := flat_map (fun r => combs r l) (List.seq 0 (S (List.length l))).
+Definition vset (ck : kind) (sub : list Q) : val := VColl KSet (map (cv ck) sub).
+
 Fixpoint gen_true (fe : fenv) (W : world) (ck : kind) (p : pred) {struct p} : gp :=
   match p with
   | PAll q =>
@@ -201,6 +211,9 @@ Fixpoint gen_true (fe : fenv) (W : world) (ck : kind) (p : pred) {struct p} : gp
   | PHasKey key =>
       GFun (GRound 2 (fun j => match j with O => random_dicts | _ => random_anys end) 0 []
                    (fun vs => [VColl KDict (items_of (hd VNone vs) ++ [cv ck key])]) GStop)
+  | PSubset s => GFun (fixed (map (vset ck) (powerset s)))                                   (* yield from powerset_of_sets(v) *)
+  | PRealSubset s =>                                                                          (* ... if v != predicate.v *)
+      GFun (fixed (filter (fun v => negb (vsuperset (items_of v) s)) (map (vset ck) (powerset s))))
   | _ => GFun GStop           (* unsupported here: the implementation raises ValueError or is not modelled (see header) *)
   end.
 
